@@ -188,7 +188,9 @@ def check_fall(bw, dur, a, name, role):
     y = ref_output(x, bw, pad)  # y[i] is the output at time i - pad
     peak = float(np.max(np.abs(x)))
     bound = max(0.01, 0.006 * peak)
-    tail = np.abs(y[pad + D + fall:])
+    # Library output frame: the modulated samples start one rise time before the input and are placed at t = 0,
+    # so "beyond the accounted fall time" is the true time D + fall - rise.
+    tail = np.abs(y[pad + D + fall - rise:])
     out = []
     if len(tail) and tail.max() >= bound:
         out.append((f"C14:fall-time-too-short:{role}:{name}", f"bw {bw} MHz (rise {rise}), duration {D}, peak {peak}: output {tail.max():.5g} "
@@ -216,7 +218,7 @@ def check_fall_eom(bw, eom_bw, dur, a):
     pad = 6 * rise + 50
     y = ref_output(x, eom_bw, pad)
     bound = max(0.01, 0.006 * a)
-    tail = np.abs(y[pad + dur + fall:])
+    tail = np.abs(y[pad + dur + fall - rise:])
     if len(tail) and tail.max() >= bound:
         return [("C14:fall-time-too-short:eom", f"EOM bw {eom_bw} (rise {rise}), duration {dur}, amp {a}: output {tail.max():.5g} after {fall} ns (bound {bound:.5g})")]
     return [("@fall-eom", "")]
